@@ -70,6 +70,10 @@ def strategy(tier):
         )
         if draw(st.booleans()):
             case["params_extra"] = {"report_rcond": True}
+        if draw(st.booleans()):
+            # a progress row is assembled in every iteration (display_interval=0 under the frozen clock):
+            # reporting code then also touches rejected trial points
+            case.setdefault("params_extra", {})["display_interval"] = 0.0
         nfr = 3 if tier == "quick" else 6
         fr = st.lists(st.integers(0, 999), min_size=nfr, max_size=nfr)
         case["fracs"] = {c: draw(fr) for c in COMPONENTS + ["fact", "solve"]}
